@@ -2,11 +2,14 @@
   C10 — what was acknowledged survives any crash; what was not is invisible (partial: a crash is
   "the segment file is a byte prefix of what was appended").
 
-  Theorems are about `Model/Wal.lean` (the reader `read_segment_bytes` + recovery, the writer
-  `append_segment_record`), for an ARBITRARY hash function `H` returning 32 bytes and arbitrary
-  configuration constants.
+  Theorems are about `Model/Wal.lean` (the reader `read_segment_bytes`, the writer
+  `append_segment_record` / `WalTransactionBuilder`), recovery AS IT IS NOW (`recoverFCT` of
+  `Model/WalIntegrity.lean` = `recover_from_frames_and_commits` with the commit-marker tiling check of
+  /repo 891bbae) and `Model/WalDurable.lean` (truncation rewrite, host durability discipline), for an
+  ARBITRARY hash function `H` returning 32 bytes and arbitrary configuration constants.
 -/
-import EchoVerif.Lemmas.WalLog
+import EchoVerif.Lemmas.WalDurable
+import EchoVerif.Lemmas.WalHost
 import EchoVerif.Lemmas.WalBuilt
 set_option linter.unusedSimpArgs false
 set_option linter.unusedVariables false
@@ -84,7 +87,7 @@ theorem recover_prefix (cfg : Cfg) (H : HashFn) (h32 : Hash32 H) (seg base : Nat
     ∃ k d, k ≤ ts.length
       ∧ (encLog cfg H (ts.take k)).length ≤ m
       ∧ (k < ts.length → m < (encLog cfg H (ts.take (k + 1))).length)
-      ∧ recoverSegmentBytes cfg H seg ((encLog cfg H ts).take m) mode
+      ∧ recoverSegmentBytesT cfg H seg ((encLog cfg H ts).take m) mode
           = .ok (d, { txs := recoveredOf (ts.take k),
                       tail := if m = (encLog cfg H (ts.take k)).length then .clean
                               else tailOf mode (lastLsnOf (ts.take k)) }) := by
@@ -108,8 +111,8 @@ theorem recover_prefix (cfg : Cfg) (H : HashFn) (h32 : Hash32 H) (seg base : Nat
       | some t =>
         simp only [hget] at hf'
         exact hseg t (List.mem_of_getElem? hget) f hf'
-  have hrec := recoverFC_prefix mode (ts.take k) extra (hlog.take k) hchain
-  simp only [recoverSegmentBytes, hscan, framesOf_log, commitsOf_log, hsegs, hrec]
+  have hrec := recoverFCT_prefix mode (ts.take k) extra (hlog.take k) hchain
+  simp only [recoverSegmentBytesT, hscan, framesOf_log, commitsOf_log, hsegs, hrec]
   congr 2
   simp only [applyTorn]
   by_cases hb : m = (encLog cfg H (ts.take k)).length
@@ -125,6 +128,258 @@ theorem recover_prefix (cfg : Cfg) (H : HashFn) (h32 : Hash32 H) (seg base : Nat
     · have hne : tailOf mode (lastLsnOf (ts.take k)) ≠ Tail.clean := by
         cases mode <;> cases lastLsnOf (ts.take k) <;> simp [tailOf]
       simp [he, hne]
+
+/-- `recover_idempotent`.  For EVERY log of validated transactions and EVERY byte cut `m`: writable
+    `recover_filesystem_store` succeeds with exactly the transactions wholly inside the cut
+    (`Clean` iff `m` is a transaction boundary, else `TruncatedAfter last` / `TruncatedAll`), and leaves
+    segment bytes `b2` behind (the rewrite of `rewrite_filesystem_segments_after_truncation` /
+    `clear_filesystem_segments`, or the untouched file) such that
+      * recovering `b2` again — writable or read-only — yields the SAME transactions with tail `Clean`,
+      * a second writable recovery changes nothing: `(report, bytes)` is a fixed point.
+    In particular the rewrite keeps every frame and every commit marker of the recovered
+    transactions and nothing else. -/
+theorem recover_idempotent (cfg : Cfg) (H : HashFn) (h32 : Hash32 H) (base : Nat)
+    (ts : List Tx) (hlog : LogAt cfg H base ts) (hc : Codec cfg H ts)
+    (m : Nat) (hm : m ≤ (encLog cfg H ts).length) :
+    ∃ k b2, k ≤ ts.length
+      ∧ (encLog cfg H (ts.take k)).length ≤ m
+      ∧ (k < ts.length → m < (encLog cfg H (ts.take (k + 1))).length)
+      ∧ afterWritableRecoveryT cfg H ((encLog cfg H ts).take m)
+          = .ok ({ txs := recoveredOf (ts.take k),
+                   tail := if m = (encLog cfg H (ts.take k)).length then .clean
+                           else tailOf .writable (lastLsnOf (ts.take k)) }, b2)
+      ∧ (∀ mode, recoverFilesystemT cfg H b2 mode = .ok { txs := recoveredOf (ts.take k), tail := .clean })
+      ∧ afterWritableRecoveryT cfg H b2 = .ok ({ txs := recoveredOf (ts.take k), tail := .clean }, b2) := by
+  obtain ⟨k, extra, torn, hk, hle, hnext, hscan, hchain, hrec⟩ :=
+    recoverFilesystemT_cut cfg H h32 base .writable ts hlog hc m hm
+  have hfix : ∀ b2 : Bytes,
+      (∀ mode, recoverFilesystemT cfg H b2 mode = .ok { txs := recoveredOf (ts.take k), tail := .clean }) →
+      afterWritableRecoveryT cfg H b2 = .ok ({ txs := recoveredOf (ts.take k), tail := .clean }, b2) := by
+    intro b2 h
+    simp only [afterWritableRecoveryT, h Mode.writable]
+  by_cases hb : m = (encLog cfg H (ts.take k)).length
+  · -- the cut is a transaction boundary: nothing to truncate, the file stays as it is
+    have hboth : ∀ mode, recoverFilesystemT cfg H ((encLog cfg H ts).take m) mode
+        = .ok { txs := recoveredOf (ts.take k), tail := .clean } := by
+      intro mode
+      obtain ⟨k', _, _, _, hle', hnext', _, _, hrec'⟩ :=
+        recoverFilesystemT_cut cfg H h32 base mode ts hlog hc m hm
+      have hkk : k' = k := by
+        rcases Nat.lt_trichotomy k' k with h | h | h
+        · have h1 := hnext' (by omega)
+          have h2 := encLog_take_mono cfg H ts (j := k' + 1) (k := k) (by omega)
+          omega
+        · exact h
+        · have h1 := hnext (by omega)
+          have h2 := encLog_take_mono cfg H ts (j := k + 1) (k := k') (by omega)
+          omega
+      subst hkk
+      rw [hrec', if_pos hb]
+    refine ⟨k, (encLog cfg H ts).take m, hk, hle, hnext, ?_, hboth, hfix _ hboth⟩
+    simp only [afterWritableRecoveryT, hboth Mode.writable, if_pos hb]
+  · rw [if_neg hb] at hrec
+    have hrw := fun mode => recoverFilesystemT_rewritten cfg H h32 base mode (ts.take k) (hlog.take k) (hc.take k)
+    cases hlast : lastLsnOf (ts.take k) with
+    | none =>
+      -- no committed transaction inside the cut: `clear_filesystem_segments`
+      have hnil : ts.take k = [] := by
+        cases htk : ts.take k with
+        | nil => rfl
+        | cons t rest =>
+          have := ((hlog.take k).lastLsn (by simp [htk])).1
+          rw [hlast] at this; cases this
+      have hempty : ∀ mode, recoverFilesystemT cfg H [] mode
+          = .ok { txs := recoveredOf (ts.take k), tail := .clean } := by
+        intro mode
+        have := hrw mode
+        simpa [hnil, encodeRecords, framesOfTxs] using this
+      refine ⟨k, [], hk, hle, hnext, ?_, hempty, hfix _ hempty⟩
+      simp only [afterWritableRecoveryT, hrec, hlast, tailOf, if_neg hb]
+    | some l =>
+      have hne : ts.take k ≠ [] := by
+        intro h; rw [h] at hlast; simp [lastLsnOf] at hlast
+      refine ⟨k, encodeRecords cfg H (framesOfTxs (ts.take k)) ((ts.take k).map (fun t => t.commit)),
+        hk, hle, hnext, ?_, hrw, hfix _ hrw⟩
+      simp only [afterWritableRecoveryT, hrec, hlast, tailOf, hscan, if_neg hb]
+      rw [keptFrames_log (hlog.take k) hne hchain _ (framesOf_log _ _) l hlast,
+        keptCommits_log (hlog.take k) hne _ (commitsOf_log _ _) l hlast]
+
+/-- `rewrite_crash_safe` (the staged rewrite of /repo 9800f72, at the level of the bytes left behind).
+    While writable recovery replaces the cut segment by the rewritten one, the process may die at any
+    point: staging file absent / any byte prefix of the replacement / already renamed.  In EVERY such
+    directory state, recovery (either mode) succeeds with exactly the same committed transactions —
+    nothing acknowledged before the first crash is lost by a second crash during recovery. -/
+theorem rewrite_crash_safe (cfg : Cfg) (H : HashFn) (h32 : Hash32 H) (base : Nat)
+    (ts : List Tx) (hlog : LogAt cfg H base ts) (hc : Codec cfg H ts)
+    (m : Nat) (hm : m ≤ (encLog cfg H ts).length) :
+    ∃ k r1 b2, afterWritableRecoveryT cfg H ((encLog cfg H ts).take m) = .ok (r1, b2)
+      ∧ r1.txs = recoveredOf (ts.take k)
+      ∧ ∀ d ∈ rewriteCrashStates ((encLog cfg H ts).take m) b2, ∀ mode,
+          ∃ tail, recoverDir cfg H d mode = .ok { txs := recoveredOf (ts.take k), tail := tail } := by
+  obtain ⟨k, b2, hk, hle, hnext, h1, h2, _⟩ := recover_idempotent cfg H h32 base ts hlog hc m hm
+  refine ⟨k, _, b2, h1, rfl, ?_⟩
+  have hold : ∀ mode, ∃ tail, recoverFilesystemT cfg H ((encLog cfg H ts).take m) mode
+      = .ok { txs := recoveredOf (ts.take k), tail := tail } := by
+    intro mode
+    obtain ⟨k', _, _, _, hle', hnext', _, _, hrec'⟩ :=
+      recoverFilesystemT_cut cfg H h32 base mode ts hlog hc m hm
+    have hkk : k' = k := by
+      rcases Nat.lt_trichotomy k' k with h | h | h
+      · have h1 := hnext' (by omega)
+        have h2 := encLog_take_mono cfg H ts (j := k' + 1) (k := k) (by omega)
+        omega
+      · exact h
+      · have h1 := hnext (by omega)
+        have h2 := encLog_take_mono cfg H ts (j := k + 1) (k := k') (by omega)
+        omega
+    subst hkk
+    exact ⟨_, hrec'⟩
+  intro d hd mode
+  simp only [rewriteCrashStates, List.mem_cons, List.mem_append, List.mem_map, List.mem_range,
+    List.mem_singleton, List.not_mem_nil, or_false] at hd
+  rcases hd with (rfl | ⟨j, _, rfl⟩) | rfl
+  · exact hold mode
+  · exact hold mode
+  · exact ⟨.clean, h2 mode⟩
+
+/-- what 9800f72 bought: with the UNSTAGED rewrite (delete, then append to the live file) there is, for
+    every cut that recovers at least one transaction and has a tail to truncate, a crash state in which
+    recovery succeeds with NO transaction at all — committed work silently lost. -/
+theorem unstaged_rewrite_loses_commits (cfg : Cfg) (H : HashFn) (old new : Bytes) (mode : Mode) :
+    ∃ d ∈ rewriteCrashStatesUnstaged old new,
+      recoverDir cfg H d mode = .ok { txs := [], tail := .clean } := by
+  refine ⟨⟨[], none⟩, ?_, ?_⟩
+  · simp only [rewriteCrashStatesUnstaged, List.mem_cons, List.mem_map, List.mem_range]
+    right
+    exact ⟨0, by omega, by simp⟩
+  · simp [recoverDir, recoverFilesystemT, scan, framesOf, commitsOf, sortBy, recoverFCT, validateFrameOrder,
+      frameOrderLoop, recoverLoopT, applyTorn]
+
+/-! ### host level: acknowledged ⇒ committed ⇒ recovered -/
+
+/-- `synced_survives_crash` (bytes ↔ "flushed before the stop").  If the commit markers of the first `j`
+    transactions had been completely written (and synced) when the process stopped — the file is ANY
+    byte prefix at least that long — recovery returns a prefix of the written transactions that
+    contains those `j`, each byte-identical (commit marker and all frames). -/
+theorem synced_survives_crash (cfg : Cfg) (H : HashFn) (h32 : Hash32 H) (base : Nat) (mode : Mode)
+    (ts : List Tx) (hlog : LogAt cfg H base ts) (hc : Codec cfg H ts)
+    (j : Nat) (hj : j ≤ ts.length) (m : Nat) (hsync : (encLog cfg H (ts.take j)).length ≤ m)
+    (hm : m ≤ (encLog cfg H ts).length) :
+    ∃ k tail, j ≤ k ∧ k ≤ ts.length
+      ∧ recoverFilesystemT cfg H ((encLog cfg H ts).take m) mode
+          = .ok { txs := recoveredOf (ts.take k), tail := tail } := by
+  obtain ⟨k, _, _, hk, hle, hnext, _, _, hrec⟩ := recoverFilesystemT_cut cfg H h32 base mode ts hlog hc m hm
+  refine ⟨k, _, ?_, hk, hrec⟩
+  rcases Nat.lt_or_ge k j with hlt | hge
+  · have h1 := hnext (by omega)
+    have h2 := encLog_take_mono cfg H ts (j := k + 1) (k := j) (by omega)
+    omega
+  · exact hge
+
+/-- `inflight_invisible` (bytes ↔ the abstract disk of the host model).  The log holds the whole
+    transactions `ts`; `t` is being appended and its commit marker is not completely on disk (the cut
+    `m` is anywhere from "nothing of `t`" up to the last byte of its marker, exclusive): recovery
+    returns exactly `ts` — nothing of `t`. -/
+theorem inflight_invisible (cfg : Cfg) (H : HashFn) (h32 : Hash32 H) (base : Nat) (mode : Mode)
+    (ts : List Tx) (t : Tx) (hlog : LogAt cfg H base (ts ++ [t])) (hc : Codec cfg H (ts ++ [t]))
+    (m : Nat) (hlo : (encLog cfg H ts).length ≤ m) (hhi : m < (encLog cfg H (ts ++ [t])).length) :
+    recoverFilesystemT cfg H ((encLog cfg H (ts ++ [t])).take m) mode
+      = .ok { txs := recoveredOf ts,
+              tail := if m = (encLog cfg H ts).length then .clean else tailOf mode (lastLsnOf ts) } := by
+  obtain ⟨k, _, _, hk, hle, hnext, _, _, hrec⟩ :=
+    recoverFilesystemT_cut cfg H h32 base mode (ts ++ [t]) hlog hc m (by omega)
+  have htk : (ts ++ [t]).take ts.length = ts := by simp
+  have hkeq : k = ts.length := by
+    simp only [List.length_append, List.length_singleton] at hk hnext
+    rcases Nat.lt_trichotomy k ts.length with h | h | h
+    · have h1 := hnext (by omega)
+      have h2 := encLog_take_mono cfg H (ts ++ [t]) (j := k + 1) (k := ts.length) (by omega)
+      rw [htk] at h2
+      omega
+    · exact h
+    · have hk' : k = ts.length + 1 := by omega
+      have : (ts ++ [t]).take k = ts ++ [t] := by
+        rw [hk']; exact List.take_of_length_le (by simp)
+      rw [this] at hle
+      omega
+  rw [hkeq, htk] at hrec
+  exact hrec
+
+open Host in
+/-- `ack_implies_committed` (host level, abstract).  For EVERY sequence of submit / tick operations,
+    each with ANY injected store fault (frame append, commit flush, after the marker was synced), with
+    the process dying and a fresh host recovering (`enable_runtime_wal`) ANY number of times at ANY
+    point — between operations or in the middle of one — in the reached state `h` (which may itself be
+    a mid-operation state):
+      1. every acknowledged submission and every published tick outcome is a COMMITTED transaction of
+         the log, with the same submission id, envelope digest, receipt digest and state root;
+      2. if the process dies right here, the recovered host knows every one of them again — as a
+         witnessed submission, in the de-dup index, as a decided outcome — with identical values;
+      3. everything the recovered host knows comes from a committed transaction: nothing of the
+         transaction that was being appended is visible, and the uncommitted tail is gone;
+      4. recovery is idempotent and a function of the committed log only (no callback input). -/
+theorem ack_implies_committed (sidOf : Nat → Nat) (h : Host.Host) (hr : Reach sidOf h) :
+    ((∀ p ∈ h.acked, ATx.accept p.1 p.2 ∈ h.disk.committed)
+      ∧ (∀ p ∈ h.published, ATx.tick p.1 p.2.1 p.2.2 ∈ h.disk.committed))
+    ∧ ((∀ p ∈ h.acked, (p.2, p.1) ∈ (restart h).subs ∧ p ∈ (restart h).dedup)
+      ∧ (∀ p ∈ h.published, p ∈ (restart h).outcomes))
+    ∧ ((∀ p ∈ (restart h).subs, ATx.accept p.2 p.1 ∈ h.disk.committed)
+      ∧ (∀ p ∈ (restart h).dedup, ATx.accept p.1 p.2 ∈ h.disk.committed)
+      ∧ (∀ p ∈ (restart h).outcomes, ATx.tick p.1 p.2.1 p.2.2 ∈ h.disk.committed)
+      ∧ (restart h).disk = ⟨h.disk.committed, none⟩)
+    ∧ restart (restart h) = restart h := by
+  have hi := reach_inv hr
+  refine ⟨⟨hi.acked, hi.published⟩, ⟨?_, ?_⟩, ⟨?_, ?_, ?_, rfl⟩, rfl⟩
+  · intro p hp
+    exact ⟨(mem_subsOf _ (p.2, p.1)).mpr (hi.acked p hp), (mem_accIndex _ p).mpr (hi.acked p hp)⟩
+  · intro p hp
+    exact (mem_ticksOf _ p).mpr (hi.published p hp)
+  · intro p hp; exact (mem_subsOf _ p).mp hp
+  · intro p hp; exact (mem_accIndex _ p).mp hp
+  · intro p hp; exact (mem_ticksOf _ p).mp hp
+
+open Host in
+/-- `retry_after_recovery_is_duplicate`.  Submission ids are derived injectively from the envelope
+    digest.  After ANY history and a process death at ANY point, re-submitting an envelope whose
+    acknowledgement had been handed out is answered by the recovered host, from the de-dup index rebuilt
+    from the log, as a duplicate with the SAME submission id — in one step, with no append (the log,
+    the index and the runtime are unchanged), whatever fault is armed. -/
+theorem retry_after_recovery_is_duplicate (sidOf : Nat → Nat) (hinj : Function.Injective sidOf)
+    (h : Host.Host) (hr : Reach sidOf h) (s e : Nat) (hack : (s, e) ∈ h.acked) (f : Fault) :
+    submitStates sidOf (restart h) e f
+      = [{ restart h with acked := (s, e) :: (restart h).acked, resps := .ackDup s e :: (restart h).resps }] := by
+  have hi := reach_inv hr
+  have hi2 := reach_inv2 hr
+  have hcomm := hi.acked _ hack
+  have hs : s = sidOf e := hi2.log s e hcomm
+  -- the runtime restored from the log knows the envelope, with the same submission id
+  have hsub : (subsOf h.disk.committed).lookup e = some s := by
+    have hsome := mem_lookup_isSome _ e s ((mem_subsOf _ (e, s)).mpr hcomm)
+    cases hl : (subsOf h.disk.committed).lookup e with
+    | none => rw [hl] at hsome; cases hsome
+    | some s' =>
+      have := hi2.log s' e ((mem_subsOf _ (e, s')).mp (lookup_some_mem _ _ _ hl))
+      rw [this, hs]
+  -- … and the rebuilt de-dup index maps the submission id to exactly this envelope
+  have hded : (accIndex h.disk.committed).lookup s = some e := by
+    have hsome := mem_lookup_isSome _ s e ((mem_accIndex _ (s, e)).mpr hcomm)
+    cases hl : (accIndex h.disk.committed).lookup s with
+    | none => rw [hl] at hsome; cases hsome
+    | some e' =>
+      have h1 := hi2.log s e' ((mem_accIndex _ (s, e')).mp (lookup_some_mem _ _ _ hl))
+      have : e' = e := hinj (by rw [← h1, hs])
+      rw [this]
+  simp only [submitStates, restart, hsub, submitWith, hded, and_self, if_true]
+
+/-- non-vacuity: a run in which a submission is acknowledged and its tick is published although the
+    store reported an error after syncing the marker; the process then dies and the outcome is recovered -/
+example : ∃ h, Host.Reach id h ∧ h.acked = [(7, 7)] ∧ h.published = [(7, 100, 200)]
+    ∧ (Host.restart h).outcomes = [(7, 100, 200)] := by
+  let h1 := Host.lastState Host.init (Host.submitStates id Host.init 7 .none)
+  let h2 := Host.lastState Host.init (Host.tickStates h1 7 100 200 .markerSynced)
+  have r1 : Host.Reach id h1 := .step (h := Host.init) (.submit 7 .none) .init (by decide) (by decide)
+  have r2 : Host.Reach id h2 := .step (h := h1) (.tick 7 100 200 .markerSynced) r1 (by decide) (by decide)
+  exact ⟨h2, r2, by decide, by decide, by decide⟩
 
 /-- writer/validator agreement: every transaction produced by `WalTransactionBuilder`
     (`push_record`* then `commit`) passes `validate_transaction_frames` against its own frames. -/
@@ -155,7 +410,7 @@ theorem recover_prefix_built (cfg : Cfg) (H : HashFn) (h32 : Hash32 H) (p : Buil
     ∃ k d, k ≤ ts.length
       ∧ (encLog cfg H (ts.take k)).length ≤ m
       ∧ (k < ts.length → m < (encLog cfg H (ts.take (k + 1))).length)
-      ∧ recoverSegmentBytes cfg H p.segmentId ((encLog cfg H ts).take m) mode
+      ∧ recoverSegmentBytesT cfg H p.segmentId ((encLog cfg H ts).take m) mode
           = .ok (d, { txs := recoveredOf (ts.take k),
                       tail := if m = (encLog cfg H (ts.take k)).length then .clean
                               else tailOf mode (lastLsnOf (ts.take k)) }) := by
@@ -169,7 +424,7 @@ theorem recovered_is_committed_prefix (cfg : Cfg) (H : HashFn) (h32 : Hash32 H) 
     (ts : List Tx) (hlog : LogAt cfg H base ts) (hc : Codec cfg H ts)
     (hseg : ∀ t ∈ ts, ∀ f ∈ t.frames, f.header.segmentId = seg)
     (m : Nat) (hm : m ≤ (encLog cfg H ts).length) :
-    ∃ k d tail, recoverSegmentBytes cfg H seg ((encLog cfg H ts).take m) mode
+    ∃ k d tail, recoverSegmentBytesT cfg H seg ((encLog cfg H ts).take m) mode
       = .ok (d, { txs := (recoveredOf ts).take k, tail := tail }) := by
   obtain ⟨k, d, _, _, _, h⟩ := recover_prefix cfg H h32 seg base mode ts hlog hc hseg m hm
   refine ⟨k, d, (if m = (encLog cfg H (ts.take k)).length then Tail.clean
